@@ -238,6 +238,7 @@ func lapackProp(self, other, what string) *property {
 			r.Floor("call_pairs", 300)
 			res.Merge(r)
 			res.Merge(stride.RunArgmaxBase(def, sc))
+			res.Merge(loopidx.RunStaleFlag(def, sc))
 			o := lapackArgs
 			a := args.Run(def, core.Scope{Patterns: []string{"./lapack/gonum"}, Files: sc.Files}, o)
 			a.Floor("entry_points", 50)
@@ -921,6 +922,8 @@ func dump(argv []string) {
 		res = graphinv.RunIterFamily(def)
 	case "argmaxbase":
 		res = stride.RunArgmaxBase(def, core.Pkgs(argv[1:]...))
+	case "staleflag":
+		res = loopidx.RunStaleFlag(def, core.Pkgs(argv[1:]...))
 	case "workquery":
 		res = flagx.RunWorkQuery(def, core.Pkgs(argv[1:]...))
 	case "betascale":
